@@ -1,6 +1,6 @@
 (* C19 property theorems. Nothing but statements closed by `exact lemma` and Print Assumptions. *)
 From Coq Require Import String List Bool NArith.
-From OG Require Import C19.Model C19.Gen_Routes C19.Privileges C19.Gen_Privileges C19.Proofs.
+From OG Require Import C19.Model C19.Guards C19.Gen_Routes C19.Privileges C19.Gen_Privileges C19.Proofs.
 Import ListNotations.
 Open Scope string_scope.
 Open Scope N_scope.
@@ -244,6 +244,39 @@ Theorem repository_reads_refuse_without_privilege : forall r cfg us rq u,
 Proof. exact see_routes_refuse_lemma. Qed.
 Print Assumptions repository_reads_refuse_without_privilege.
 
+(* ---- guard formulas: the handler kind DERIVED from the source ---- *)
+(* For ALL formulas, configurations, users, requests and values of the conditions the evaluator does not understand: the
+   kind `derive` assigns means what it says - the handler goes on exactly when (DAdmin, DSee, DWrite, DQuery, DDbRead,
+   DEveryone), resp. only when (DAtLeastRead, DAtLeastQuery), the model's handler kind acts. The decision procedures
+   gequiv / gimplies behind it are proved sound over every valuation (Guards.gequiv_sound, gimplies_sound). *)
+Theorem derived_kinds_are_sound : forall g, dkind_spec (derive g) g.
+Proof. exact derive_sound. Qed.
+Print Assumptions derived_kinds_are_sound.
+
+(* (T) every route the statement names by function derives exactly the kind it asks for, from the formulas the translator
+   obtained by symbolic evaluation of this run's handlers (incl. the and/or structure: read OR write for the catalogue
+   reads, the upfront read check AND the per-shard-group statement check for the log-store queries) *)
+Theorem named_routes_derive_expected_kinds : forallb (expected_dkind_ok handler_formulas) expected_dkinds = true.
+Proof. exact expected_dkinds_check. Qed.
+Print Assumptions named_routes_derive_expected_kinds.
+
+Theorem formulas_cover_table : forallb has_formula_row routes = true.
+Proof. exact formulas_cover_routes_check. Qed.
+
+(* the reference formulas are the decisions of the model's handler kinds *)
+Theorem admin_formula_is_the_admin_kind : forall cfg u rq q o,
+  geval (mk_genv (base_of cfg u (rq_db rq) q) o) F_admin = acts (inner cfg KAdminOnly rq u).
+Proof. exact F_admin_is_inner. Qed.
+Theorem see_formula_is_the_repository_read_kind : forall cfg u rq q o,
+  geval (mk_genv (base_of cfg u (rq_db rq) q) o) F_see = acts (inner cfg KRepoSee rq u).
+Proof. exact F_see_is_inner. Qed.
+Theorem write_formula_is_the_write_kind : forall cfg u rq q o,
+  geval (mk_genv (base_of cfg u (rq_db rq) q) o) F_write = acts (inner cfg KWrite rq u).
+Proof. exact F_write_is_inner. Qed.
+Theorem query_formula_is_the_query_kind : forall cfg u rq q o,
+  geval (mk_genv (base_of cfg u (rq_db rq) q) o) F_query = acts (inner cfg (KQuery q) rq u).
+Proof. exact F_query_is_inner. Qed.
+
 (* ---- AuthorizeUnrestricted and checkAuthorization (translated) ---- *)
 (* (T) UserInfo.AuthorizeUnrestricted - the only administrator test of serveSysCtrl, checkAuth (/backup/...), requireAdmin
    (tsdb creation, repository / logstream management, recall, stream tasks) - is the administrator flag and nothing else *)
@@ -426,4 +459,13 @@ Example C19_example_other_error :
   serve shape_now ex_cfg ex_users ex_route (KQuery [[RInvalid]]) (ex_rq "rw" "rwpw") = (403, []) /\
   serve shape_now ex_cfg ex_users ex_route (KQuery [[RInvalid]]) (ex_rq "root" "rootpw") = (200, [EffQuery "db1" [[RInvalid]]]) /\
   eval_uexpr (UOr UAdmin URw) false true = Some true /\ uexpr_is_admin (UOr UAdmin URw) = false /\ uexpr_is_admin UAdmin = true.
+Proof. vm_compute. repeat split. Qed.
+
+Example C19_example_guard_formulas :
+  derive (GOr GAuthOff (GAnd (GNot GAuthOff) (GAnd (GNot GNil) (GOr GDbRead GDbWrite)))) = DSee /\
+  derive (GOr GAuthOff (GAnd (GNot GAuthOff) (GAnd (GNot GNil) GDbRead))) = DDbRead /\
+  derive (GOr GAuthOff (GAnd (GNot GAuthOff) (GAnd (GNot GNil) (GAnd GDbRead GDbWrite)))) = DAtLeastRead /\
+  derive (GAnd F_dbread (GOr (GNot (GOpaque 5)) (GAnd (GOpaque 5) F_query))) = DAtLeastRead /\
+  derive (GOr (GNot (GOpaque 5)) (GAnd (GOpaque 5) F_query)) = DUnknown /\
+  derive (GOr GAuthOff (GAnd (GNot GNil) (GOr GAdmin GDbWrite))) = DUnknown /\ derive GTrue = DEveryone.
 Proof. vm_compute. repeat split. Qed.
